@@ -32,6 +32,7 @@ struct pool_job {
     std::unique_ptr<cocls::future<int>> fut;     // run(fn) / run(async)
     std::unique_ptr<cocls::future<void>> gate;   // resume(sp) / pool(awaitable)
     std::optional<cocls::promise<void>> gate_prom;
+    int awt_timing = 0; // pool(awaitable): 0 = the operation completes later (same thread), 1 = already complete, 2 = completed by the PEER submitter thread while this coroutine registers
     std::atomic<int> submitted{0};
     std::atomic<int> outer_ran{0};
     bool throws = false; // run(fn) / run(async): the job ends with an exception, which must reach the returned future
@@ -95,7 +96,8 @@ inline cocls::async<void> pj_await_awt(pool_round &X, pool_job &j) {
         bool already = j.gate->ready();
         co_await (*X.pool)(*j.gate);
         // documented: if the awaited operation is already resolved no thread is allocated, execution continues in the current thread
-        if (!already && !is_current(*X.pool)) j.off_worker.fetch_add(1, std::memory_order_relaxed);
+        // (when another thread completes the operation while this coroutine registers, either outcome is legitimate)
+        if (!already && j.awt_timing != 2 && !is_current(*X.pool)) j.off_worker.fetch_add(1, std::memory_order_relaxed);
         j.ran.fetch_add(1, std::memory_order_relaxed);
     } catch (const cocls::await_canceled_exception &) { j.cancelled.fetch_add(1, std::memory_order_relaxed); }
 }
@@ -125,7 +127,11 @@ inline void pool_submit(pool_round &X, pool_job &j) {
     cocls::thread_pool &P = *X.pool;
     switch (j.kind) {
     case PK_AWAIT_POOL: pj_await_pool(X, j).detach(); break;
-    case PK_AWAIT_POOL_AWT: pj_await_awt(X, j).detach(); (*j.gate_prom)(); j.gate_prom.reset(); break;
+    case PK_AWAIT_POOL_AWT:
+        if (j.awt_timing == 1) { (*j.gate_prom)(); j.gate_prom.reset(); pj_await_awt(X, j).detach(); }
+        else if (j.awt_timing == 2) pj_await_awt(X, j).detach(); // the peer thread completes the operation
+        else { pj_await_awt(X, j).detach(); (*j.gate_prom)(); j.gate_prom.reset(); }
+        break;
     case PK_RUN_FN:
         j.fut = std::unique_ptr<cocls::future<int>>(new cocls::future<int>(P.run([&X, &j, g = closure_guard(&j)]() -> int {
             if (!is_current(*X.pool)) j.off_worker.fetch_add(1, std::memory_order_relaxed);
@@ -196,7 +202,8 @@ inline void pool_mt(const vf::opts &o, vf::report &R, vf::team &T, uint64_t roun
                 if (j.kind == PK_RUN_DETACHED && r.chance(1, 2)) j.busy = 2000 + (int)r.below(60000);
                 if (j.kind == PK_RUN_DETACHED) j.pad = (int)r.below(4);
                 if (j.kind == PK_AWAIT_POOL_AWT || j.kind == PK_RESUME_SP) { j.gate = std::make_unique<cocls::future<void>>(); j.gate_prom.emplace(j.gate->get_promise()); }
-                desc += std::string(pk_name(j.kind)) + (j.throws ? " throwing, " : ", ");
+                if (j.kind == PK_AWAIT_POOL_AWT) { uint32_t w = r.below(4); j.awt_timing = w == 0 ? 1 : (w <= 2 && X.nsub == 2) ? 2 : 0; }
+                desc += std::string(pk_name(j.kind)) + (j.throws ? " throwing, " : j.kind == PK_AWAIT_POOL_AWT ? (j.awt_timing == 1 ? " (already complete), " : j.awt_timing == 2 ? " (completed by the peer thread), " : ", ") : ", ");
             }
         }
         g_ws_job.store(0, std::memory_order_relaxed);
@@ -212,7 +219,11 @@ inline void pool_mt(const vf::opts &o, vf::report &R, vf::team &T, uint64_t roun
             vf::start_offset(rseed, tid);
             if (tid >= 1 && tid <= X.nsub) {
                 int s = tid - 1;
+                // operations awaited through pool(awaitable) by the OTHER submitter that this thread completes (racing with their registration)
+                auto complete_peer = [&] { if (X.nsub == 2) for (int i = 0; i < X.njobs[1 - s]; i++) { pool_job &pj = X.jobs[1 - s][i]; if (pj.kind == PK_AWAIT_POOL_AWT && pj.awt_timing == 2 && pj.gate_prom) { (*pj.gate_prom)(); pj.gate_prom.reset(); } } };
+                if (rseed & 1) complete_peer();
                 for (int i = 0; i < X.njobs[s]; i++) pool_submit(X, X.jobs[s][i]);
+                if (!(rseed & 1)) complete_peer();
             } else if ((tid == 0 && (X.stop_mode == PS_STOP_MAIN || X.stop_mode == PS_STOP_TWO_THREADS)) || (tid == X.nsub + 1 && (X.stop_mode == PS_STOP_OTHER || X.stop_mode == PS_STOP_TWO_THREADS))) {
                 // PS_STOP_TWO_THREADS: two ordinary threads call stop() at (almost) the same time
                 for (int i = 0; i < X.stop_delay + (tid ? 40 : 0); i++) vf::cpu_relax();
